@@ -136,6 +136,23 @@ Definition g_smin_step (s : option T) (x : T) : option T * T :=
 Definition g_smax_step (s : option T) (x : T) : option T * T :=
   let m := match s with Some m => if altb A m x then x else m | None => x end in (Some m, m).
 
+(* ---- sinks: bounds.rs, statistics.rs, mean.rs (finalize), last.rs, collect.rs ---- *)
+Definition g_sbounds_step (s : option T * option T) (x : T) : (option T * option T) * (T * T) :=
+  let '(smin, lo) := g_smin_step (fst s) x in let '(smax, hi) := g_smax_step (snd s) x in ((smin, smax), (lo, hi)).
+Definition g_sbounds_fin (s : option T * option T) : option (T * T) :=
+  match s with (Some lo, Some hi) => Some (lo, hi) | _ => None end.
+Definition g_stat_step (s : (option T * option T) * option (T * T * T)) (x : T) :=
+  let '(sb, (lo, hi)) := g_sbounds_step (fst s) x in
+  let '(sm, (m, v)) := g_smv_step (snd s) x in ((sb, sm), (lo, hi, m, v)).
+Definition g_stat_fin (s : (option T * option T) * option (T * T * T)) : option (T * T * T * T) :=
+  match g_sbounds_fin (fst s), g_smv_fin (snd s) with
+  | Some (lo, hi), Some (m, v) => Some (lo, hi, m, v)
+  | _, _ => None
+  end.
+Definition g_smean_fin (s : option (T * T)) : option T := match s with Some (_, m) => Some m | None => None end.
+Definition g_last_sink (s : option T) (x : T) : option T := Some x.
+Definition g_collect_step (s : list T) (x : T) : list T * list T := (s ++ [x], s ++ [x]).
+
 (* ---- classify/schmitt.rs: `input >= thresholds[0]` when on, `input > thresholds[1]` when off ---- *)
 Definition g_schmitt_next (lo hi : T) (on : bool) (x : T) : bool := if on then aleb A lo x else altb A hi x.
 Definition g_schmitt_step {U} (lo hi : T) (outs : U * U) (on : bool) (x : T) : bool * U :=
